@@ -272,3 +272,32 @@ def refused_seek_histories(tier):
                     hs.append({"id": f"rs{i}", "ver": ver, "maxbuf": mb, "mode": "plain", "streams": streams, "ops": ops, "hash": True})
                     i += 1
     return hs
+
+
+def c08_handle_histories(tier):
+    """C08 through ONE long-lived handle: fill the handle's window by reading, shrink, grow again, read the
+    re-grown range through the same handle (immediately), then write one byte inside it and flush (what the
+    handle writes back must not resurrect truncated bytes: fresh handle and reopened copy)."""
+    hs = []
+    f = gens.Fill()
+    i = 0
+    for ver in (3, 4):
+        for mb in ([1024, None] if tier == "quick" else CONFIGS):
+            for n in (300, 5000, 9000):
+                for k in (0, 100, n):
+                    for s1 in sorted(set([0, n // 2, n - 1, 100])):
+                        for s2 in (n, n + 700, 4096 if n < 4096 else 2 * n):
+                            if s2 <= s1:
+                                continue
+                            ops = [{"op": "open"}, {"op": "open_stream", "name": "a"}, {"op": "read", "n": k}, {"op": "position"},
+                                   {"op": "set_len", "n": s1}, {"op": "position"}, {"op": "len"},
+                                   {"op": "set_len", "n": s2}, {"op": "position"}, {"op": "len"},
+                                   {"op": "read", "n": 2 * s2 + 10}, {"op": "position"},
+                                   {"op": "seek", "whence": "start", "d": 0, "sym": ""}, {"op": "read_to_end"},
+                                   {"op": "seek", "whence": "start", "d": min(s1 + 3, s2 - 1), "sym": ""},
+                                   {"op": "write", "runs": [[f.next(), 1]]}, {"op": "flush"}, {"op": "fresh_read"},
+                                   {"op": "seek", "whence": "start", "d": 0, "sym": ""}, {"op": "read_to_end"}]
+                            hs.append({"id": f"c08h{i}", "ver": ver, "maxbuf": mb, "mode": "plain",
+                                       "streams": [{"name": "a", "runs": [[f.next(), n // 2], [f.next(), n - n // 2]]}], "ops": ops})
+                            i += 1
+    return hs
